@@ -143,8 +143,15 @@ class LiveProvider(dulprovider.DULServiceProvider):
     _vt_peer = None
     _vt_sock = None
 
+    _vt_stop_calls = 0
+    _vt_killed = False
+
     def start(self):
         pass
+
+    def is_alive(self):
+        """the provider thread lives until its loop has been told to end (kill) or has died"""
+        return not self._vt_killed and self._vt_pump.err is None
 
     def receive(self, timeout):
         pump = self._vt_pump
@@ -159,7 +166,11 @@ class LiveProvider(dulprovider.DULServiceProvider):
 
     def stop(self):
         """Association.kill() polls stop() for up to a second while the provider thread runs: here the thread (and the
-        peer) get to run now"""
+        peer) get to run now.  The real kill() polls about a thousand times; a caller that polls without bound waits for a
+        state the provider may never reach (silent peer, no ARTIM armed) = a stop request that never completes"""
+        self._vt_stop_calls += 1
+        if self._vt_stop_calls > 1500:
+            raise api.Hang('stop() polled %d times: waiting without bound for the provider to become idle' % self._vt_stop_calls)
         pump = self._vt_pump
         pump.run()
         rounds = 0
